@@ -185,6 +185,20 @@ func (p *exprPrinter) expr(n map[string]any) string {
 			as = append(as, p.child(nodeOf(a), 0))
 		}
 		return n["fn"].(string) + "(" + strings.Join(as, ","+sp) + ")"
+	case "flush":
+		var sb strings.Builder
+		sb.WriteString("<<-EOT\n")
+		for _, l := range listOf(n["lines"]) {
+			ln := nodeOf(l)
+			sb.WriteString(strings.Repeat(" ", int(ln["ind"].(float64))) + p.parts(listOf(ln["parts"]), false) + "\n")
+		}
+		return sb.String() + strings.Repeat(" ", int(n["close"].(float64))) + "EOT\n"
+	case "callx":
+		var as []string
+		for _, a := range listOf(n["args"]) {
+			as = append(as, p.child(nodeOf(a), 0))
+		}
+		return n["fn"].(string) + "(" + strings.Join(as, ","+sp) + "..." + sp + ")"
 	case "un":
 		e := nodeOf(n["e"])
 		s := p.child(e, 7)
@@ -447,7 +461,10 @@ func RunExpr(behs [][]Step, tr *Trace, env Env, sum *Summary) {
 				src = pr.expr(tree)
 			}()
 			asAttr := false
-			if styles[si].here {
+			if tree["k"] == "flush" { // a heredoc is read as the value of an attribute
+				asAttr = true
+				src = "v = " + src
+			} else if styles[si].here {
 				// a heredoc cannot stand alone as an expression: it is read as the value of an attribute
 				if tree["k"] != "str" || !endsWithNewline(listOf(tree["parts"])) || hasStrip(tree) {
 					continue
